@@ -148,6 +148,8 @@ pub fn analyze_dir(
     target_dir: &str,
     optimizations: Vec<Optimization>,
 ) -> HashMap<Optimization, Vec<(String, BTreeSet<LineNumber>)>> {
+    #[cfg(solstat_verif)]
+    use crate::verif_shim::fs;
     //Initialize a new hashmap to keep track of all the optimizations across the target dir
     let mut optimization_locations: HashMap<Optimization, Vec<(String, BTreeSet<LineNumber>)>> =
         HashMap::new();
